@@ -1777,7 +1777,12 @@ def datetime_ambiguous(dt, tz=None):
     same_offset = wall_0.utcoffset() == wall_1.utcoffset()
     same_dst = wall_0.dst() == wall_1.dst()
 
-    return not (same_offset and same_dst)
+    if same_offset and same_dst:
+        return False
+
+    # The fold attribute also selects between the two offsets around a gap,
+    # but a wall time that does not exist is not ambiguous.
+    return datetime_exists(dt)
 
 
 def resolve_imaginary(dt):
